@@ -87,8 +87,37 @@ class Source:
             path = os.path.join(self.repo, *modname.split(".")) + ".py"
             text = open(path).read()
             self.hashes[os.path.relpath(path, self.repo)] = hashlib.sha256(text.encode()).hexdigest()
-            self.modules[modname] = ast.parse(text, filename=path)
+            tree = ast.parse(text, filename=path)
+            self._separate_ghost_names(modname, tree)
+            self.modules[modname] = tree
         return self.modules[modname]
+
+    def _separate_ghost_names(self, modname, tree):
+        """Ghost variables of the contracts live in the same environment as the function's locals.  A local of the tree under
+        test that happens to carry the name of a ghost variable (the pinned tree has none) would overwrite the ghost value, and
+        the contract would then speak about the code's own variable.  Such locals are renamed, consistently in the whole
+        module, before anything is verified; the ghost name keeps denoting the contract's value."""
+        ghosts = getattr(self, "ghost_names", {}).get(modname, set())
+        if not ghosts:
+            return
+        local = set()
+        for fn in ast.walk(tree):
+            if isinstance(fn, (ast.FunctionDef, ast.Lambda)):
+                for n in ast.walk(fn):
+                    if isinstance(n, ast.Name) and isinstance(n.ctx, ast.Store) and n.id in ghosts:
+                        local.add(n.id)
+                    if isinstance(n, ast.arg) and n.arg in ghosts:
+                        local.add(n.arg)
+        if not local:
+            return
+        for n in ast.walk(tree):
+            if isinstance(n, ast.Name) and n.id in local:
+                n.id = n.id + "__code"
+            elif isinstance(n, ast.arg) and n.arg in local:
+                n.arg = n.arg + "__code"
+            elif isinstance(n, (ast.Nonlocal, ast.Global)):
+                n.names = [x + "__code" if x in local else x for x in n.names]
+        self.separated = getattr(self, "separated", set()) | {"%s: local `%s` carries the name of a ghost variable of the contract; verified as `%s__code`" % (modname, x, x) for x in local}
 
     def find_function(self, modname, qualname):
         """qualname like 'convert' or 'convert.dump' (nested defs).  Duplicated definitions (the py2/py3
